@@ -3,6 +3,7 @@
 from ..rules import proj_rules as P
 from ..rules import cache_rules as CA
 from ..rules import shape_rules as SH
+from ..rules import sibling_rules as SI
 from ..rules.common import u1
 
 PROJ, HYP = P.PROJ, P.HYP
@@ -26,6 +27,7 @@ def run(ctx):
     ctx.do(P.rule_p1)
     ctx.do(CA.rule_c2, "ProjectiveObject")
     ctx.do(SH.rule_sh3)
+    ctx.do(SI.rule_s1c)
     ctx.do(u1, ENTRIES, min_functions=30)
     ctx.r.assume("numerical equality of stored and recomputed derived data "
                  "and the effect of numerical queries (in-place row "
